@@ -408,6 +408,7 @@ impl<K: KeyT, V: ValT> MapRunner<K, V> {
         match (name, a.len()) {
             ("insert", 4) => {
                 let (k, kid, vid, v) = (n(0), n(1), n(2), n(3));
+                let (kid, vid) = if K::IDS { (kid, vid) } else { (0, 0) };
                 match r.get(&k).copied() {
                     Some(old) => {
                         expect = Some(format!("{}.{}", old.1, old.2));
@@ -507,7 +508,7 @@ impl<K: KeyT, V: ValT> MapRunner<K, V> {
                 *o = r.clone();
                 // clones carry fresh identities
                 for (k, e) in &other_actual {
-                    if r.contains_key(k) && (e.0 < 1_000_000 || e.1 < 1_000_000) {
+                    if K::IDS && r.contains_key(k) && (e.0 < 1_000_000 || e.1 < 1_000_000) {
                         return Some(format!("clone shares identity of key {}", k));
                     }
                 }
@@ -527,7 +528,7 @@ impl<K: KeyT, V: ValT> MapRunner<K, V> {
                 }
                 for (k, e) in &actual {
                     let _ = k;
-                    if e.0 < 1_000_000 || e.1 < 1_000_000 {
+                    if K::IDS && (e.0 < 1_000_000 || e.1 < 1_000_000) {
                         return Some("clone_from shares identity with source".into());
                     }
                 }
@@ -689,6 +690,20 @@ impl<K: KeyT, V: ValT> MapRunner<K, V> {
                 }
                 if *blen == 0 && mm == 0 && asz != 0 {
                     return Some("shrink_to(0) of an empty collection kept its allocation".into());
+                }
+                let want_cap = std::cmp::max(*blen as u128, mm);
+                if want_cap > 0 && want_cap < (1u128 << 40) {
+                    let (size, ca) = hashbrown::verif::table_layout_new::<(K, V)>();
+                    if let Some(b) = hashbrown::verif::capacity_to_buckets(want_cap as usize, size, ca) {
+                        if let Some((fresh, _, _)) = hashbrown::verif::calculate_layout_for(size, ca, b) {
+                            if asz > fresh {
+                                return Some(format!(
+                                    "after shrink_to({}) the allocation ({} bytes) is larger than a fresh with_capacity({}) ({} bytes)",
+                                    mm, asz, want_cap, fresh
+                                ));
+                            }
+                        }
+                    }
                 }
                 if len != *blen {
                     return Some("shrink changed len".into());
@@ -892,7 +907,11 @@ impl<K: KeyT, V: ValT> Runner for MapRunner<K, V> {
         };
         quiet();
         self.stash.clear();
+        let clean = ret.clone();
         let mut ret = ret;
+        if (name == "drain" && args.len() == 2 && args[1] == "1") || tape::with(|t| t.p.dpanic.is_some()) {
+            self.leak_ok = true;
+        }
         let evs = tape::peek_events();
         let panicked = ret.starts_with("panic");
         if let Some(why) = self.ledger_step(name, args, &evs, panicked) {
@@ -923,8 +942,18 @@ impl<K: KeyT, V: ValT> Runner for MapRunner<K, V> {
                 }
             }
         }
-        if let Some(why) = self.capacity_step(tgt, name, args, &ret.clone(), &before, &evs) {
+        if let Some(why) = self.capacity_step(tgt, name, args, &clean, &before, &evs) {
             ret.push_str(&format!(" ORACLE-CAP({})", why.replace(' ', "_")));
+        }
+        if !self.leak_ok {
+            let held: usize = tape::with(|t| t.live_blocks.values().map(|(s, _)| *s).sum());
+            let claimed = self.a.as_ref().unwrap().allocation_size() + self.b.as_ref().unwrap().allocation_size();
+            if held != claimed {
+                ret.push_str(&format!(
+                    " ORACLE-ASZ(allocation_size_reports_{}_bytes_but_{}_are_held_from_the_allocator)",
+                    claimed, held
+                ));
+            }
         }
         if let Some(why) = layout_oracle(self.get(tgt)) {
             ret.push_str(&format!(" ORACLE-LAYOUT({})", why.replace(' ', "_")));
@@ -936,8 +965,8 @@ impl<K: KeyT, V: ValT> Runner for MapRunner<K, V> {
         if let Some(why) = inv_oracle(&self.get(if tgt == "a" { "b" } else { "a" }).verif_dump()) {
             ret.push_str(&format!(" ORACLE-INV(other:{})", why.replace(' ', "_")));
         }
-        if lawful() && !ret.starts_with("panic") {
-            if let Some(why) = self.ref_step(tgt, name, args, &ret.clone()) {
+        if lawful() && !clean.starts_with("panic") {
+            if let Some(why) = self.ref_step(tgt, name, args, &clean) {
                 ret.push_str(&format!(" ORACLE-REF({})", why.replace(' ', "_")));
                 // do not cascade: continue from what the implementation holds
                 self.ra = contents(self.get("a"));
@@ -996,8 +1025,10 @@ pub fn make_runner(coll: &str, drop: bool, lay: &str) -> Box<dyn Runner> {
         ("map", false, "a64") => Box::new(MapRunner::<KC<A64>, VC>::new()),
         ("map", true, "big") => Box::new(MapRunner::<KD<Big>, VD>::new()),
         ("map", false, "big") => Box::new(MapRunner::<KC<Big>, VC>::new()),
+        ("map", false, "odd5") => Box::new(MapRunner::<K3, V2>::new()),
         ("table", d, l) => crate::table_runner::make(d, l),
         ("set", d, l) => crate::set_runner::make(d, l),
+        ("par", d, l) => crate::par_runner::make(d, l),
         ("serde", d, l) => crate::serde_runner::make(d, l),
         _ => panic!("no runner for coll={} drop={} lay={}", coll, drop, lay),
     }
